@@ -13,6 +13,12 @@ Per run:
      non-negative spectrum of the requested shape with extrap_x set; accepts exactly len(__param_names__) parameters;
      each nesting pair compared at the nesting point (exact: 1e-10 relative); symmetric models under label exchange at two
      time steps (operator-splitting error must shrink).
+ (5) concrete semantics (coq/theories/Model/ProgSem.v; theorems in Props/C15Concrete.v): for every model that returns a spectrum, the REAL
+     function func(params, ns, pts) (no extrapolation; Integration.timescale_factor = 0.125, grids of 6-10 points, sample sizes 2-4,
+     dyadic in-bounds parameters; 1 vector per model in quick, 3 in thorough) against run_prog -- the composition of the executable
+     models of C01 / C06 / C02-C04 / C05 -- on the program translated from the CURRENT source, evaluated inside Coq on 128-bit software
+     floats; every unmasked entry at 1e-7 of the largest entry; the static check prog_ok of the program is part of the case.  A
+     disagreement is a violation whose replay carries the model name and the parameter vector.
  (4) mutation adequacy of the committed list (harness/props/c15_common.py, Python mirror of the normaliser; the mirror is
      compared with Coq on every obligation of the run): every single-occurrence mutant of every model program of the CURRENT
      translation must be killed by a committed obligation, except the mutants committed as unkillable (with the reason)
@@ -104,7 +110,8 @@ def run(ctx):
     t_start = time.time()
     ctx.rule = ('inputs = (model function, parameter vector drawn inside the documented bounds from one PRNG, sample sizes 4-6 per '
                 'population, grid 16-24 points (12-14 for three populations)); nesting pairs and symmetric models from the committed '
-                'list harness/props/c15_nesting.json; distinct = distinct (function, parameter vector); all are non-trivial')
+                'list harness/props/c15_nesting.json; concrete-semantics cases = (function, dyadic in-bounds parameter vector, grid 6-10 points, sample sizes 2-4, '
+                'timescale_factor 0.125) from a PRNG stream of their own; distinct = distinct (function, parameter vector); all are non-trivial')
     ctx.assumptions += [
         'documented parameter bounds: nu in [1e-2,100], T in [0,3], m in [0,10], fractions in (0,1); the kinds are read off the declared names (nu*: >0, T*, m*: >=0, s/f/F: in (0,1), gamma*: free)',
         'numerical runs use short times (the number of time steps is capped) so that the quick tier stays within minutes',
@@ -388,7 +395,12 @@ def run(ctx):
     if ctx.replay:
         rp = json.load(open(ctx.replay))
         inp = rp.get('input') or {}
-        if isinstance(inp, dict) and inp.get('job'):
+        if isinstance(inp, dict) and inp.get('job') and inp['job'].get('kind') == 'concrete':
+            # replay of a concrete-semantics case (already re-run above): of the numerical plan keep only the pairs committed as
+            # findings, so that the obligations they explain are reported as known findings
+            jobs = [jb for jb in jobs if jb['kind'] == 'pair' and meta[jb['id']][0].get('expect') == 'finding']
+            meta = {jb['id']: meta[jb['id']] for jb in jobs}
+        elif isinstance(inp, dict) and inp.get('job'):
             j = dict(inp['job']); jobs = [j]
             # keep only the meta entry of the replayed job (if it is part of this run's plan it is re-used, else minimal)
             meta = {j['id']: meta.get(j['id'])} if j['id'] in meta else {j['id']: None}
